@@ -25,7 +25,7 @@ theorem zone_half (n : Nat) (X : Int) : zone n (X / 2) = zone (2 * n) X := by
   push_cast
   split <;> split <;> omega
 
-set_option maxHeartbeats 1600000 in
+set_option maxHeartbeats 400000 in
 set_option linter.unusedSimpArgs false in
 theorem nbZ_half (n b : Nat) (zi zj X Y : Int) (hb : b < 12) (hn : 1 ≤ n) (hn2 : 2 * n ≤ 4294967296)
     (hx : (X = -1 ∧ zi = -1) ∨ (0 ≤ X ∧ X < 2 * n ∧ zi = 0) ∨ (X = 2 * n ∧ zi = 1))
